@@ -101,7 +101,21 @@ def random_jump_model(rng, closed=False, shape=None, limits=True):
         b = min(hi if hi is not None else 25, 25)
         x0.append(rng.randint(a, max(a, b)) if rng.random() < 0.8 else a)     # sometimes start at the boundary
     theta = [Fraction(rng.randint(1, 16), 8) for _ in range(np_)] + [Fraction(rng.choice([8, 16, 32, 64]))]
-    defn = gen.Defn(sy, [], procs, lims=lims)
+    decl = {}
+    if limits and ns >= 2 and rng.random() < 0.2:
+        # range-style declaration of the first k states ('y1:<k+1>', optionally with one limit pair for all of
+        # them, optionally wrapped in an ODEVariable whose display name differs from its ID); the rest by name
+        k = rng.randint(2, ns)
+        lim = rng.choice([(0, None), (0, None), (0, rng.randint(6, 40)), (rng.randint(0, 1), rng.randint(10, 40))])
+        for i in range(k):
+            sy.states[i] = "y%d" % (i + 1)
+            lims[i] = lim
+            a = lim[0]
+            b = min(lim[1] if lim[1] is not None else 25, 25)
+            x0[i] = rng.randint(a, max(a, b)) if rng.random() < 0.8 else a
+        decl = {"range": k, "range_lim": (lim if (lim != (0, None) or rng.random() < 0.5) else None),
+                "range_odevar": rng.random() < 0.4}
+    defn = gen.Defn(sy, [], procs, lims=lims, decl=decl)
     return defn, theta, x0, lims
 
 
@@ -116,7 +130,7 @@ def rate_float(defn, theta, x):
 
 def make_model(defn, theta, x0, lims, rng, backend="lambda"):
     defn.lims = lims
-    explicit = any(l != (0, None) for l in lims) or rng.random() < 0.5
+    explicit = any(l != (0, None) for l in lims) or rng.random() < 0.5 or bool(defn.decl.get("range"))
     m, events, _ = build.build(defn, rng=rng, style=rng.randrange(6), sform="tuples" if explicit else rng.choice(["list", "space"]),
                                backend=backend)
     m.parameters = [float(v) for v in theta]
